@@ -399,6 +399,40 @@ func (g *cgraph) defineLenCall(c *ssa.Call, idx int, lt string, val ssa.Value, d
 	}
 	nonNil := a.at[instrOf(val)] != nil && a.nonNilHere(val)
 	switch sc.String() {
+	case "(*regexp.Regexp).Split":
+		// for a pattern that cannot match the empty string and n != 0 the piece after the last match is always
+		// appended, so there is at least one piece; with n < 0 there is exactly one piece more than FindAll*(s, -1) of
+		// the same pattern on the same text finds matches
+		if n, ok := constInt(c.Call.Args[2]); ok && n != 0 {
+			if m, okm := a.regexpMinLen(c.Call.Args[0]); okm && m >= 1 {
+				g.le(zeroTerm, lt, -1)
+				if n < 0 {
+					for _, b := range c.Parent().Blocks {
+						for _, ins := range b.Instrs {
+							fa, ok := ins.(*ssa.Call)
+							if !ok || fa == c {
+								continue
+							}
+							switch calleeName(&fa.Call) {
+							case "(*regexp.Regexp).FindAllString", "(*regexp.Regexp).FindAllStringIndex", "(*regexp.Regexp).FindAllStringSubmatch", "(*regexp.Regexp).FindAllStringSubmatchIndex":
+							default:
+								continue
+							}
+							if k, ok := constInt(fa.Call.Args[2]); !ok || k >= 0 {
+								continue
+							}
+							if a.key(fa.Call.Args[0]) != a.key(c.Call.Args[0]) || fa.Call.Args[1] != c.Call.Args[1] {
+								continue
+							}
+							g.defineLen(fa, depth+1)
+							other := "len(" + a.regKey(fa) + ")"
+							g.le(lt, other, 1)
+							g.le(other, lt, -1)
+						}
+					}
+				}
+			}
+		}
 	case "strings.Split", "strings.SplitN", "bytes.Split", "bytes.SplitN", "strings.SplitAfter":
 		// a non-empty separator yields at least one element
 		if sep, ok := c.Call.Args[1].(*ssa.Const); ok && sep.Value != nil && sep.Value.Kind() == constant.String && constant.StringVal(sep.Value) != "" {
